@@ -274,6 +274,63 @@ def case_access(case):
     return run_case(fn, replay, witness=True, sample=dict(cls=cls_name, A=A.tolist(), b=b.tolist()), key=str(case))
 
 
+def case_collection(case):
+    """Schedule / Template canonicalised as a whole: every member keeps visiting its own points, also when the members'
+    bounds differ (a dimension with a single trip in one member and several in another)."""
+    from snaxc.ir.dart.access_pattern import Schedule, SchedulePattern, Template, TemplatePattern
+    from snaxc.ir.dart.affine_transform import AffineTransform
+
+    cls_name, members = case
+    pcls, ccls = (SchedulePattern, Schedule) if cls_name == "schedule" else (TemplatePattern, Template)
+    mats = [(np.array(A, dtype=int), np.array(b, dtype=int)) for A, b in members]
+    n = mats[0][0].shape[1]
+
+    def check(Bs, xs, branch, oblige):
+        pats = [pcls(Bs[k], AffineTransform(A, b)) for k, (A, b) in enumerate(mats)]
+        with sym.eager():
+            cs = list(ccls(pats).canonicalize())
+        oblige("collection_canon:members", len(cs) == len(pats), None)
+        for k, (p, c) in enumerate(zip(pats, cs)):
+            keep = [i for i in range(n) if branch(Bs[k][i])]
+            oblige("collection_canon:ndims", c.num_dims == len(keep), dict(member=k))
+            if c.num_dims != len(keep):
+                continue
+            for j, i in enumerate(keep):
+                oblige("collection_canon:bounds", sym.zint(c.bounds[j]) == sym.zint(Bs[k][i]), dict(member=k))
+            got = c.pattern.eval(np.array([xs[k][i] for i in keep], dtype=object)) if keep else c.pattern.b
+            ref = p.pattern.eval(np.array(xs[k], dtype=object))
+            for i in range(len(ref)):
+                oblige("collection_canon:eval", sym.zint(got[i]) == sym.zint(ref[i]), dict(member=k))
+
+    def fn():
+        E = eng()
+        Bs = [[sym.sym(f"B{k}_{i}", 1, None) for i in range(n)] for k in range(len(mats))]
+        xs = [[sym.sym(f"x{k}_{i}", 0, None) for i in range(n)] for k in range(len(mats))]
+        for k in range(len(mats)):
+            for i in range(n):
+                E.assume(xs[k][i].z < Bs[k][i].z)
+        check(Bs, xs, lambda Bv: E.branch(Bv.z > 1), lambda nm, c, info: E.oblige(nm, c, info))
+
+    def replay(f):
+        m = f["model"]
+        Bs = [[mval(m, f"B{k}_{i}", 1) for i in range(n)] for k in range(len(mats))]
+        xs = [[mval(m, f"x{k}_{i}") for i in range(n)] for k in range(len(mats))]
+        bad = []
+
+        def oblige(nm, c, info):
+            ok = bool(z3.is_true(z3.simplify(c))) if z3.is_expr(c) else bool(c)
+            if not ok:
+                bad.append((nm, info))
+
+        try:
+            check(Bs, xs, lambda Bv: Bv > 1, oblige)
+        except Exception as e:
+            bad.append((f"{type(e).__name__}: {str(e)[:80]}", None))
+        return bool(bad), f"members={members} bounds={Bs} x={xs}: {bad[:3]}"
+
+    return run_case(fn, replay, witness=True, sample=dict(cls=cls_name, members=str(members)), key=str(case), max_paths=300)
+
+
 # ------------------------------------------------------------------ (d) StridePattern.canonicalize
 
 
@@ -575,7 +632,7 @@ def run(chk):
     chk.functions = [
         "snaxc.util.canonicalize_affine.canonicalize_expr/canonicalize_map",
         "snaxc.ir.dart.affine_transform.AffineTransform.from_affine_map/to_affine_map/compose/eval",
-        "snaxc.ir.dart.access_pattern.AccessPattern.canonicalize/inner_dims",
+        "snaxc.ir.dart.access_pattern.AccessPattern.canonicalize/inner_dims, PatternCollection.canonicalize (members with their own bounds)",
         "snaxc.dialects.snax_stream.StridePattern.canonicalize/print_parameters/parse_parameters",
         "snaxc.util.pack_bitlist.pack_bitlist",
         "snaxc.dialects.snax.StreamerConfigurationAttr.print_parameter/parse_parameter",
@@ -637,6 +694,15 @@ def run(chk):
                 cases.append((cls, A, [3] * len(A)))
     if getattr(chk, "only", None) in (None, "access"):
         chk.add_results("access_pattern", pmap(case_access, cases))
+    ccases = []
+    for n in (1, 2) + (() if quick else (3,)):
+        eye, ones, mix = np.eye(n, dtype=int).tolist(), [[1] * n], [[(i + 1) for i in range(n)], [0] * (n - 1) + [2]]
+        for cls in ("schedule", "template"):
+            ccases.append((cls, [(eye, [0] * n), (ones, [3])]))
+            ccases.append((cls, [(mix, [0, 1]), (eye, [0] * n), (ones, [0])]))
+            ccases.append((cls, [(ones, [0]), (mix, [2, 0])]))
+    if getattr(chk, "only", None) in (None, "access"):
+        chk.add_results("pattern_collection", pmap(case_collection, ccases))
     chk.bounds["access_pattern"] = dict(dims="1..3 quick / 1..4 thorough", bounds="symbolic >= 1 unbounded")
     # (d)
     maxub, maxn = (3, 3) if quick else (5, 4)
